@@ -175,6 +175,15 @@ def step (d : PDesc) : Op → Except Err (Option PDesc)
   | .reconcileOthers c now => reconcileOthers d c now
   | .stopping c rm => stopping d c rm
 
+/-- `kv.Client.CAS(key, f)` as `updateRing` uses it: `f` runs on the value just read; if the store was
+written in between, the write is refused and `f` runs again on the fresh value, until an attempt is not
+interfered with. `reads` = the values the successive attempts read; all attempts but the last are discarded
+(a handler must therefore decide from its argument alone, never from what an earlier attempt saw). -/
+def casOutcome (f : PDesc → Except Err (Option PDesc)) : List PDesc → Option (Except Err (Option PDesc))
+  | [] => none
+  | [d] => some (f d)
+  | _ :: ds => casOutcome f ds
+
 /-- the ring after the update (`updateRing`: nothing is written on error or "unchanged") -/
 def apply (d : PDesc) (op : Op) : PDesc :=
   match step d op with
